@@ -125,6 +125,76 @@ func VerifC11_ScanDuringWrite() {
 	vxAssert("scan-sees-one-committed-version", vxOr(okBefore, okAfter))
 }
 
+// VerifC11_ScanInsideWrite: the dual schedule - a whole scan runs between any two of the writer's
+// own commits (or before the first). If the writer's update is torn over several commits, the
+// scan pairs an index entry of one version with the record of the other.
+func VerifC11_ScanInsideWrite() {
+	s := vxNewStore()
+	v1 := vxSigLite("A")
+	v1.NodeCount = 1
+	v2 := vxSigLite("A")
+	v2.NodeCount = 2
+	before := &vxLive{}
+	{
+		sg := v1
+		if err := s.AddSignature(&sg); err != nil {
+			vxAssert("add-succeeds", false)
+		}
+		before.put(v1)
+	}
+	after := vxCopyLive(before)
+	wkind := vxPick(3)
+	switch wkind {
+	case 0:
+		after.put(v2)
+	case 1:
+		after.del("A")
+	}
+	k := vxPick(2)
+	topo := vxPoolTopo(k)
+	mode := vxParam("mode", 0)
+	var res []detection.ScanResult
+	var serr error
+	vxInterfere(func() {
+		if mode == 0 {
+			res, serr = s.ScanTopology(topo, "f")
+		} else {
+			r, err := s.ScanTopologyExact(topo, "f")
+			serr = err
+			if r != nil {
+				res = []detection.ScanResult{*r}
+			}
+		}
+	})
+	switch wkind {
+	case 0:
+		sg := v2
+		s.AddSignature(&sg)
+	case 1:
+		s.DeleteSignature("A")
+	default:
+		s.RebuildIndexes()
+	}
+	if !vxInterfered() {
+		return
+	}
+	vxCover("scan-ran-inside-writer", true)
+	vxAssert("scan-no-error", serr == nil)
+	okBefore := vxSameAlerts(res, vxAlertsOf(before, topo, k, 0.75))
+	okAfter := vxSameAlerts(res, vxAlertsOf(after, topo, k, 0.75))
+	if mode == 1 {
+		okBefore = vxExactOK(res, before, topo, k)
+		okAfter = vxExactOK(res, after, topo, k)
+	}
+	if wkind == 2 {
+		// a rebuild commits the removal of all index entries before it re-derives them (documented;
+		// the crash-safety of that protocol is C07's subject): the committed state in between has the
+		// records but no index entries, and a scan of that state correctly reports nothing
+		okAfter = vxOr(okAfter, len(res) == 0)
+	}
+	vxAssert("scan-sees-one-committed-version", vxOr(okBefore, okAfter))
+}
+
 func vxExactOK(res []detection.ScanResult, x *vxLive, topo *topology.FunctionTopology, k int) bool {
 	th := vxTopoHash(k)
 	var want []vxAlert
